@@ -80,7 +80,15 @@ class AnnotatedTypeHint(TypeHint):
         if (
             # The child type hint annotated by this parent hint does not subhint
             # the child type hint annotated by that parent hint *OR*...
-            self._metahint_wrapper > branch._metahint_wrapper or
+            #
+            # Note that this test *CANNOT* be reduced to testing whether the
+            # former is a strict superhint of the latter (e.g., with the ">"
+            # operator). Two incomparable child type hints are *NOT* strict
+            # superhints of one another but nonetheless do *NOT* subhint one
+            # another: e.g.,
+            #     >>> Annotated[str, Is[bool]] <= Annotated[int, Is[bool]]
+            #     False
+            not self._metahint_wrapper.is_subhint(branch._metahint_wrapper) or
             # These hints are annotated by a differing number of objects...
             len(self._metadata) != len(branch._metadata)
         ):
